@@ -175,6 +175,7 @@ def classify(lib, stage, fn, txt):
     msg = re.sub(r"[‘’']", "'", msg)
     msg = re.sub(r"\b(g\d+|[A-Za-z_]*_g\d+\w*)\b", "<fn>", msg)
     msg = re.sub(r"\bSH_[a-h]\b", "SH_<arg>", msg)
+    msg = re.sub(r"; did you mean .*", "", msg)
     msg = re.sub(r"\d+", "N", msg)
     kind = "py" if fn.startswith("py") else "lua" if fn.startswith("lua") else "f" if fn.endswith(".f") else "c"
     return re.sub(r"\s+", "_", "%s:%s:%s" % (stage, kind, msg[:80].strip()))
@@ -269,7 +270,7 @@ def explore(c, tier):
                     names.setdefault(nm[i], set()).add(i)
                 import re as _re
                 mentioned = set(_re.findall(r"\b(?:SUB_)?(?:ns1_)?(g\d+)(?:_\w+)?\(", txt)) | \
-                    set(_re.findall(r"\b(g\d+)(?:_\d+)?(?:_cfi)?\b", txt if stage == "compile-fortran" else ""))
+                    set(_re.findall(r"\[in procedure (?:c_)?(g\d+)\w*\]", txt if stage == "compile-fortran" else ""))
                 if stage == "shroud" and confl and res.get("retried_without_cfi_conflict"):
                     key = "cfi-clone-only:shroud"
                 elif stage in ("compile", "compile-fortran") and mentioned and \
